@@ -103,6 +103,43 @@ def content_hash(integ, with_capacity=True):
     return h.hexdigest()
 
 
+def _deep_bytes(o, n_rows, cap, depth=0):
+    """Bytes of an arbitrary attribute value (arrays, tables, containers, scalars), read without calling any
+    method or property of the integrator.  Arrays as long as the buffers are cut at the rows in use."""
+    if depth > 5:
+        return b'deep'
+    if isinstance(o, np.ndarray):
+        a = o[:n_rows] if (o.ndim >= 1 and len(o) == cap and cap >= n_rows) else o
+        return repr((o.dtype.str, a.shape)).encode() + (np.ascontiguousarray(a).tobytes() if o.dtype != object else repr(a.tolist()).encode())
+    if isinstance(o, pd.DataFrame):
+        return _bytes_df(o) if all(k.kind in 'fiub' for k in o.dtypes) else repr(o.values.tolist()).encode()
+    if isinstance(o, pd.Series):
+        return np.asarray(o.values, dtype=float).tobytes() + repr(o.name).encode()
+    if isinstance(o, (list, tuple)):
+        return b'[' + b'|'.join(_deep_bytes(x, n_rows, cap, depth + 1) for x in o) + b']'
+    if isinstance(o, dict):
+        return b'{' + b'|'.join(repr(k).encode() + b':' + _deep_bytes(o[k], n_rows, cap, depth + 1) for k in sorted(o, key=repr)) + b'}'
+    if isinstance(o, (int, float, str, bool, type(None), np.floating, np.integer, np.bool_)):
+        return repr(o).encode()
+    return type(o).__name__.encode()
+
+
+def hidden_hash(integ):
+    """Hash of EVERY instance attribute (whatever their names), so that two objects whose public content agrees
+    but whose private state differs (a pending lazy merge, a remembered previous step) are different states."""
+    d = vars(integ)
+    cap = len(integ.lla)
+    n = len(integ.trajectory)
+    h = hashlib.sha1()
+    for k in sorted(d):
+        h.update(k.encode())
+        h.update(_deep_bytes(d[k], n, cap))
+    return h.hexdigest()
+
+
+BLIND_OBSERVERS = ('T', 'G', 'J', 'E', 'N')
+
+
 class Explorer:
     def __init__(self, capacity, wa, kind, init_vd, set_ops, max_dev, chunk_ops=('I0', 'I2', 'I3', 'Irest')):
         from pyins import strapdown
@@ -182,16 +219,19 @@ class Explorer:
         ops.extend(self.set_ops)
         return ops
 
-    def apply(self, integ, model, op, hist):
-        """Apply op to a deep copy; run every oracle. Returns (integ2, model2) or None."""
+    def apply(self, integ, model, op, hist, blind=False):
+        """Apply op to a deep copy; run every oracle. Returns (integ2, model2) or None.
+        blind=True: nothing of the object is read besides what the operation itself returns (no state check, no
+        hash): an observation may itself change hidden state (a lazy merge), so histories are also executed
+        without any (see run_blind)."""
         frozen, supply, c_from, c = model
         integ2 = copy.deepcopy(integ)
         hist2 = hist + [op]
         self.ops_count[op] = self.ops_count.get(op, 0) + 1
         cap_before = len(integ2.lla)
         try:
-            if op in ('I0', 'I1', 'I2', 'I3', 'Irest'):
-                k = {'I0': 0, 'I1': 1, 'I2': 2, 'I3': 3, 'Irest': N_ROWS - c}[op]
+            if op in ('I0', 'I1', 'I2', 'I3', 'Irest', 'Iall'):
+                k = {'I0': 0, 'I1': 1, 'I2': 2, 'I3': 3, 'Irest': N_ROWS - c, 'Iall': N_ROWS - c}[op]
                 chunk = self.inc.iloc[c:c + k]
                 ret = integ2.integrate(chunk)
                 c2 = c + k
@@ -206,11 +246,11 @@ class Explorer:
                     self.v('c02-integrate-return', 'integrate(%d rows) did not return the previous '
                            'last row followed by the rows it appended' % k, hist2)
             elif op == 'P':
-                h0 = content_hash(integ2, with_capacity=False)
+                h0 = None if blind else content_hash(integ2, with_capacity=False)
                 row = self.inc.iloc[c]
                 row_bytes = row.values.tobytes()
                 ret = integ2.predict(row)
-                if content_hash(integ2, with_capacity=False) != h0:
+                if not blind and content_hash(integ2, with_capacity=False) != h0:
                     self.v('c02-predict-mutates', 'predict changed the observable state', hist2)
                 exp_next = self.expected((frozen, supply, c_from, c + 1))[-1]
                 if (not isinstance(ret, pd.Series) or ret.values.tobytes() != exp_next.tobytes()
@@ -221,7 +261,7 @@ class Explorer:
                     self.v('c02-arg-mutated', 'predict modified its argument', hist2)
                 if not self.wa and isinstance(ret, pd.Series):
                     # C13: a predicted row is a row produced by the integrator too
-                    alt_sup = integ2.trajectory['alt'].values[0 if frozen is None else len(frozen)]
+                    alt_sup = self.expected(model)[0 if frozen is None else len(frozen)][2]
                     if ret['VD'] != 0.0:
                         self.v('c13-vd-nonzero', '2D: predict returned VD = %r' % ret['VD'], hist2)
                     if ret['alt'] != alt_sup:
@@ -248,8 +288,93 @@ class Explorer:
         if _bytes_df(self.inc) != self.inc_bytes:
             self.v('c02-arg-mutated', 'the increments table was modified', hist2)
             self.inc = increments_table(self.kind)[1]
-        self.check_state(integ2, model2, hist2)
+        if not blind:
+            self.check_state(integ2, model2, hist2)
         return integ2, model2
+
+    # ------------------------------------------------------------ unobserved histories
+    def observe(self, integ, model, hist, obs):
+        """First observation after an unobserved history (on a copy), then integrate what is left."""
+        frozen, supply, c_from, c = model
+        h2 = hist + ['obs:' + obs]
+        self.blind_runs = getattr(self, 'blind_runs', 0) + 1
+        try:
+            if obs == 'T':
+                i2 = copy.deepcopy(integ)
+                gt = i2.get_time()
+                if gt != self.times[c]:
+                    self.v('c02-observers', 'get_time() = %r after an unobserved history, expected %r' % (gt, self.times[c]), h2)
+            elif obs == 'G':
+                i2 = copy.deepcopy(integ)
+                gp = i2.get_pva()
+                if (not isinstance(gp, pd.Series) or gp.values.tobytes() != self.expected(model)[-1].tobytes()
+                        or gp.name != self.times[c]):
+                    self.v('c02-observers', 'get_pva() after an unobserved history is not the latest row', h2)
+            elif obs == 'J':
+                i2 = copy.deepcopy(integ)
+                self.check_state(i2, model, h2)
+            elif obs == 'E':
+                out = self.apply(integ, model, 'I0', hist, blind=True)      # return value of an empty call
+                if out is None:
+                    return
+                i2 = out[0]
+            else:
+                i2 = copy.deepcopy(integ)                                   # 'N': no observation at all
+        except Exception as e:  # noqa
+            self.v('c02-exception:%s' % type(e).__name__, 'observer %s raised %s: %s after an unobserved history'
+                   % (obs, type(e).__name__, str(e)[:120]), h2)
+            return
+        # continue: everything that is left in one call (its return value and the final state are checked)
+        if c < N_ROWS:
+            self.apply(i2, model, 'Iall', h2)
+        else:
+            self.check_state(i2, model, h2)
+
+    def run_blind(self, max_dev):
+        """Depth-first enumeration of ALL histories with <= max_dev deviations, executed on live objects that are
+        never looked at in between; after every prefix each first observation of BLIND_OBSERVERS is tried on its own
+        copy.  Complements run(): there every state is hashed, i.e. observed, after every call."""
+        integ0 = self.cls(self.pva0, self.wa)
+        model0 = (None, 'init', 0, 0)
+        self.blind_nodes = 0
+
+        def rec(integ, model, hist, dev):
+            self.blind_nodes += 1
+            self.max_depth = max(self.max_depth, len(hist))
+            for obs in BLIND_OBSERVERS:
+                self.observe(integ, model, ['BLIND'] + hist, obs)
+            if len(hist) >= N_ROWS + max_dev:
+                return
+            for op in self.enabled(model[3]):
+                cost = 0 if op == 'I1' else 1
+                if dev + cost > max_dev:
+                    continue
+                out = self.apply(integ, model, op, ['BLIND'] + hist, blind=True)
+                self.n_trans += 1
+                if out is None:
+                    continue
+                rec(out[0], out[1], hist + [op], dev + cost)
+
+        rec(integ0, model0, [], 0)
+        self.completed_dev = max_dev
+        self.n_states = self.blind_nodes
+        return self
+
+    def replay_blind(self, hist):
+        ops = [o for o in hist if o != 'BLIND']
+        integ = self.cls(self.pva0, self.wa)
+        model = (None, 'init', 0, 0)
+        h = ['BLIND']
+        for op in ops:
+            if op.startswith('obs:'):
+                self.observe(integ, model, h, op[4:])
+                return self
+            out = self.apply(integ, model, op, h, blind=True)
+            h = h + [op]
+            if out is None:
+                return self
+            integ, model = out
+        return self
 
     def check_state(self, integ, model, hist):
         frozen, supply, c_from, c = model
@@ -318,7 +443,7 @@ class Explorer:
                     if out is None:
                         continue
                     integ2, model2 = out
-                    key = (model2[3], content_hash(integ2), model2[1], model2[2])
+                    key = (model2[3], content_hash(integ2), model2[1], model2[2], hidden_hash(integ2))
                     d2 = dev + cost
                     if key in seen and seen[key] <= d2:
                         continue
@@ -333,6 +458,8 @@ class Explorer:
 
     # ------------------------------------------------------------ linear replay
     def replay(self, hist):
+        if hist and hist[0] == 'BLIND':
+            return self.replay_blind(hist)
         integ = self.cls(self.pva0, self.wa)
         model = (None, 'init', 0, 0)
         self.check_state(integ, model, [])
